@@ -9,7 +9,7 @@ PROTO_ASSUME = "only protocol-conforming histories are generated (DESIGN section
 def hist(cases_q, size_q, cases_t, size_t, small_enum=False, fuzz=0, **kw):
     q = [dict(mode="random", cases=cases_q, size=size_q, timeout=900)]
     t = [dict(mode="random", cases=cases_t, size=size_t, timeout=3000)]
-    if small_enum:   # complete enumeration of small codes (every received subset x API x finish)
+    if small_enum:   # scenario phase (rare scenario classes forced a fixed number of times) and, for the single-session checks, complete enumeration of small codes (every received subset x API x finish) and axis sweeps
         q.append(dict(mode="enum", timeout=900))
         t.append(dict(mode="enum", timeout=3000))
     if fuzz:         # coverage-guided phase (libFuzzer on the same structure-aware decoder), thorough tier only
@@ -51,10 +51,10 @@ PROPS = {
     "C06": hist(1500, 200, 30000, 400, small_enum=True, fuzz=150000, assumptions=[RFC_ASSUME, LIN_ASSUME]),
     "C07": hist(2000, 200, 30000, 400, small_enum=True, fuzz=300000, memory=True, assumptions=[PROTO_ASSUME, "uninitialised reads are not observed (no MSan runtime for libstdc++ here)"]),
     "C08": hist(2500, 200, 30000, 400, small_enum=True, fuzz=150000, memory=True, assumptions=[PROTO_ASSUME, "the application fetches the source table before release and frees decoded source symbols, callback buffers and NULL-slot repair symbols, as the API documents"]),
-    "C05": hist(300, 200, 4000, 400, assumptions=[RFC_ASSUME, "session-matrix and constructor observations use an optional white-box probe (harness/probe_ldpc.c); without it only the black-box encoder observation remains"]),
+    "C05": hist(300, 200, 4000, 400, small_enum=True, assumptions=[RFC_ASSUME, "session-matrix and constructor observations use an optional white-box probe (harness/probe_ldpc.c); without it only the black-box encoder observation remains"]),
     "C09": hist(1000, 200, 25000, 300, assumptions=[PROTO_ASSUME, "behaviour under allocation failure is not judged: 2^32-1 byte symbols are only offered to sessions that allocate nothing of that size at configuration time", "MAX_K/MAX_N for LDPC taken as 50000 (OF_CTRL_GET_MAX_K/N answers are compared with it)"]),
-    "C12": hist(500, 200, 8000, 300, assumptions=[PROTO_ASSUME, "same thread only, as the property states; pointer values and library stdout are excluded from the traces"]),
-    "C15": hist(600, 200, 10000, 400, assumptions=[RFC_ASSUME, LIN_ASSUME]),
+    "C12": hist(500, 200, 8000, 300, small_enum=True, assumptions=[PROTO_ASSUME, "same thread only, as the property states; pointer values and library stdout are excluded from the traces"]),
+    "C15": hist(600, 200, 10000, 400, small_enum=True, assumptions=[RFC_ASSUME, LIN_ASSUME]),
     "C10": hist(2500, 200, 30000, 400, small_enum=True, fuzz=150000, assumptions=[RFC_ASSUME, PROTO_ASSUME]),
     "C11": hist(2500, 200, 30000, 400, small_enum=True, fuzz=150000, assumptions=[PROTO_ASSUME, "callback order within one API call is unspecified and not compared"]),
 }
